@@ -9,6 +9,13 @@ What the kernel / CPython decide (assigned ports, iteration order of the address
 set, pid) is *observed* on the run and handed to the model as its environment
 (`assign`, `hs`, `pid`); the model then has to reproduce pool, write-back, files.
 
+Restart sequences (`restart: 1`): start, serve (every probe reads the answer until the
+proxy itself closes, so FIN_WAIT/TIME_WAIT sockets stay on the listening ports), stop,
+then START AGAIN with the very same fixed ports, unix path and port/pid file paths; one
+line per start, the oracle judges both.  `kind: sockops` cases run one real
+TcpSocketListener / UnixSocketListener on a recording socket class and compare the order
+of its socket calls with the model's (`SO_REUSEADDR` before `bind`).
+
 Each start/stop of the proxy costs 1–2 s (child processes), so the cases of a run
 are observed once, in a private pool of non-daemonic worker processes (a daemonic
 `multiprocessing.Pool` worker may not have children, hence NO_FORK for the engine),
@@ -34,12 +41,16 @@ THEOREMS = [
     'Px.Listen.C19_report', 'Px.Listen.C19_unix', 'Px.Listen.C19_multi_host',
     'Px.Listen.C19_files_gone', 'Px.Listen.C19_starts', 'Px.Listen.C19_duplicate_fixed_fails',
     'Px.Listen.C19_unix_unused_port_reported', 'Px.Listen.C19_quantifier_needed',
+    'Px.Listen.C19_reuseaddr_before_bind', 'Px.Listen.C19_restart_binds',
 ]
 NO_FORK = True
 RULE = ('one case = one listening configuration (mode, workers, unix socket, hostname/hostnames, --port, --ports, '
         'port/pid file) started and stopped once with the real proxy.Proxy; thorough = the whole grid '
         '{3 modes} x {unix} x {6 address sets} x {--port 0/fixed} x {--ports: all 0/fixed lists of length 0..3} '
-        'restricted to the quantifier, plus configurations outside it (duplicates, port 0 on several addresses); '
+        'restricted to the quantifier, plus configurations outside it (duplicates, port 0 on several addresses), '
+        'plus restart sequences (start, serve until the proxy closes every probed connection, stop, start again '
+        'with the same fixed ports / unix path / port and pid file paths; both starts judged) in each mode, plus the '
+        'recorded order of the socket calls of a single TCP / unix listener; '
         'quick = corpus + seeded sample of that grid; distinct by canonical JSON; non-trivial = inside the '
         'quantifier with pairwise distinct fixed ports')
 ASSUMPTIONS = [
@@ -93,11 +104,19 @@ def _port_tok(case):
     return 'default' if case['port'] is None else case['port']
 
 
+def _is_ops(case):
+    return case.get('kind') == 'sockops'
+
+
 def in_quantifier(case):
+    if _is_ops(case):
+        return True
     return (0 not in _tcp_req(case)) or len(_hosts(case)) == 1
 
 
 def _fixed_distinct(case):
+    if _is_ops(case):
+        return True
     fx = [p for p in _tcp_req(case) if p != 0]
     return len(fx) == len(set(fx))
 
@@ -197,14 +216,27 @@ def _my_listening():
 
 
 def _probe(family, addr):
-    """'accepted' when a worker of the proxy reacts to a request on this endpoint"""
+    """'accepted' when a worker of the proxy reacts to a request on this endpoint.  The answer is read
+    until the proxy closes the connection, and only then is our end closed: the proxy is the active
+    closer, so a FIN_WAIT/TIME_WAIT socket stays behind on the listening address (what a restart on
+    the same fixed port has to cope with)."""
     s = socket.socket(family, socket.SOCK_STREAM)
     s.settimeout(PROBE_TIMEOUT)
+    got = False
     try:
         s.connect(addr)
         s.sendall(b'GET / HTTP/1.1\r\nHost: c19\r\n\r\n')
-        s.recv(4096)        # a response, or EOF after the handler closed: either way it was accepted
-        return 'accepted'
+        while True:
+            try:
+                chunk = s.recv(65536)
+            except socket.timeout:
+                if got:
+                    return 'accepted'      # answered but kept the connection open
+                return 'timeout'
+            got = True                       # a response, or EOF after the handler closed
+            if not chunk:
+                return 'accepted'
+            s.settimeout(3.0)
     except socket.timeout:
         return 'timeout'
     except ConnectionRefusedError:
@@ -250,7 +282,8 @@ class _ObsTimeout(BaseException):
 # ------------------------------------------------------------------ one observation of the real Proxy
 
 def _observe_raw(case):
-    from proxy.proxy import Proxy
+    if case.get('kind') == 'sockops':
+        return _observe_sockops(case)
     from proxy.common.constants import DEFAULT_PORT
     hosts = _hosts(case)
     d = tempfile.mkdtemp(prefix='c19-')
@@ -267,15 +300,31 @@ def _observe_raw(case):
         args += ['--port', str(num(case['port']))]
     if case['ports']:
         args += ['--ports'] + [str(num(t)) for t in case['ports']]
-    sock_path = os.path.join(d, 'px.sock')
-    port_file = os.path.join(d, 'port')
-    pid_file = os.path.join(d, 'pid')
+    paths = (os.path.join(d, 'px.sock'), os.path.join(d, 'port'), os.path.join(d, 'pid'))
     if case['unix']:
-        args += ['--unix-socket-path', sock_path]
+        args += ['--unix-socket-path', paths[0]]
     if case['pf']:
-        args += ['--port-file', port_file]
+        args += ['--port-file', paths[1]]
     if case['pidf']:
-        args += ['--pid-file', pid_file]
+        args += ['--pid-file', paths[2]]
+    try:
+        first = None
+        if case.get('restart'):
+            # start -> serve (the proxy itself closes every probed connection) -> stop -> START AGAIN with
+            # the very same options: same fixed ports, same unix path, same port/pid file paths
+            first = _run_once(case, args, paths, hosts, pmap)
+            time.sleep(0.1)
+        obs = _run_once(case, args, paths, hosts, pmap)
+        if first is not None:
+            obs['first'] = first
+        return obs
+    finally:
+        shutil.rmtree(d, ignore_errors=True)
+
+
+def _run_once(case, args, paths, hosts, pmap):
+    from proxy.proxy import Proxy
+    sock_path, port_file, pid_file = paths
     obs = {'pmap': pmap, 'mypid': os.getpid()}
     main_thread = threading.current_thread() is threading.main_thread()
     saved = {}
@@ -374,6 +423,90 @@ def _observe_raw(case):
                 except Exception:
                     pass
         logging.disable(prev_disable)
+        if obs.get('status') != 'ok':      # a failed start leaves its pid file / unix path: not ours to keep
+            for path in paths:
+                try:
+                    os.remove(path)
+                except OSError:
+                    pass
+    return obs
+
+
+# ------------------------------------------------------------------ the socket calls of one listener
+
+def _observe_sockops(case):
+    """run the real TcpSocketListener / UnixSocketListener with a recording socket class and return
+    the order of the calls it makes on the socket"""
+    import ipaddress
+    from proxy.common.flag import FlagParser
+    from proxy.core.listener.tcp import TcpSocketListener
+    from proxy.core.listener.unix import UnixSocketListener
+    log = []
+    real = socket.socket
+    fam_name = {socket.AF_INET: 'inet', socket.AF_INET6: 'inet6', socket.AF_UNIX: 'unix'}
+
+    class Rec(real):
+        def __init__(self, family=-1, type=-1, proto=-1, fileno=None):
+            real.__init__(self, family, type, proto, fileno)
+            if fileno is None:
+                log.append('socket:%s' % fam_name.get(family, str(int(family))))
+
+        def setsockopt(self, level, opt, *val):
+            if (level, opt) == (socket.SOL_SOCKET, socket.SO_REUSEADDR):
+                log.append('reuseaddr=%s' % val[0])
+            elif (level, opt) == (socket.IPPROTO_TCP, socket.TCP_NODELAY):
+                log.append('nodelay=%s' % val[0])
+            else:
+                log.append('setsockopt:%d:%d' % (level, opt))
+            return real.setsockopt(self, level, opt, *val)
+
+        def bind(self, addr):
+            log.append('bind:%s' % ('path' if isinstance(addr, (str, bytes)) else addr[1]))
+            return real.bind(self, addr)
+
+        def listen(self, *a):
+            log.append('listen:%s' % (a[0] if a else 'default'))
+            return real.listen(self, *a)
+
+        def setblocking(self, flag):
+            log.append('nonblocking' if not flag else 'blocking')
+            return real.setblocking(self, flag)
+
+        def getsockname(self):
+            log.append('getsockname')
+            return real.getsockname(self)
+
+    d = tempfile.mkdtemp(prefix='c19-')
+    prev_disable = logging.root.manager.disable
+    logging.disable(logging.CRITICAL)
+    port = 0 if case['port'] == 0 else _free_port([case['host']], set())
+    obs = {'port': port}
+    lst = None
+    socket.socket = Rec
+    try:
+        args = ['--backlog', str(case['backlog']), '--log-level', 'CRITICAL']
+        if case['unix']:
+            args += ['--unix-socket-path', os.path.join(d, 'ops.sock')]
+        flags = FlagParser.initialize(args)
+        if case['unix']:
+            lst = UnixSocketListener(flags=flags)
+        else:
+            lst = TcpSocketListener(hostname=ipaddress.ip_address(case['host']), port=port, flags=flags)
+        del log[:]
+        try:
+            lst.setup()
+            obs['status'] = 'ok'
+        except OSError as e:
+            obs['status'] = 'exc ' + ('addrInUse' if e.errno == errno.EADDRINUSE else 'OSError-%s' % e.errno)
+        obs['ops'] = list(log)
+    finally:
+        socket.socket = real
+        try:
+            if lst is not None and lst._socket is not None:
+                lst.shutdown()
+        except BaseException:
+            pass
+        logging.disable(prev_disable)
         shutil.rmtree(d, ignore_errors=True)
     return obs
 
@@ -460,14 +593,16 @@ def _suspect(obs):
     """an observation that may only reflect an overloaded machine (a genuine defect shows again)"""
     st = obs.get('status', '')
     return st == 'timeout' or st.startswith('harness-exc') or st.startswith('exc OSError') \
-        or any(r == 'timeout' for _, _, r in obs.get('accept', []))
+        or any(r == 'timeout' for _, _, r in obs.get('accept', [])) \
+        or ('first' in obs and _suspect(obs['first']))
 
 
 def observe(case):
     k = _key(case)
     if k not in _CACHE:
         _CACHE[k] = _observe_guarded(case)
-    unexpected_clash = _CACHE[k].get('status') == 'exc addrInUse' and _fixed_distinct(case)   # lost a race for a port
+    unexpected_clash = _fixed_distinct(case) and 'exc addrInUse' in (      # lost a race for a port?
+        _CACHE[k].get('status'), _CACHE[k].get('first', {}).get('status'))
     if (_suspect(_CACHE[k]) or unexpected_clash) and not _CACHE[k].get('retried'):
         obs = _observe_guarded(case)
         obs['retried'] = True
@@ -511,26 +646,40 @@ def _fs_line(case, f, pid, unix_exists):
     return 'file=%s pid=%s unix=%d' % (_file_canon(f, case['unix']), _pid_canon(pid), 1 if unix_exists else 0)
 
 
-def impl(case):
-    obs = observe(case)
+def _impl_line(case, obs):
     st = obs['status']
     q = 1 if in_quantifier(case) else 0
     if st.startswith('exc '):
-        return ['%s q=%d so=1 %s' % (st, q, _fs_line(case, obs['file'], obs['pid'], obs['unix_exists']))]
+        return '%s q=%d so=1 %s' % (st, q, _fs_line(case, obs['file'], obs['pid'], obs['unix_exists']))
     if st != 'ok':
-        return [st]
+        return st
     pool = ';'.join('u' if l == ['u'] else '%d:%d' % (HOST_ID[l[0]], l[2]) for l in obs['pool']) or '-'
-    return ['ok q=%d so=1 kf=1 pool=%s port=%d ports=%s %s | down pool=%s %s' % (
+    return 'ok q=%d so=1 kf=1 pool=%s port=%d ports=%s %s | down pool=%s %s' % (
         q, pool, obs['flags_port'], _csv(sorted(obs['flags_ports'])),
         _fs_line(case, obs['file'], obs['pid'], obs['unix_exists']),
         '-' if obs['pool_after'] == 0 else str(obs['pool_after']),
-        _fs_line(case, obs['file_after'], obs['pid_after'], obs['unix_after']))]
+        _fs_line(case, obs['file_after'], obs['pid_after'], obs['unix_after']))
 
 
-def model_lines(case):
+def _runs(case, obs):
+    """the observed starts of a case in order (two for a restart sequence)"""
+    return ([obs['first']] if case.get('restart') and 'first' in obs else []) + [obs]
+
+
+def impl(case):
     obs = observe(case)
+    if _is_ops(case):
+        if 'ops' not in obs:
+            return [obs.get('status', 'bad-observation')]
+        return ['%s ops=%s' % (obs['status'], ','.join(obs['ops']) or '-')]
+    if case.get('restart') and 'first' not in obs:
+        return [obs.get('status', 'bad-observation')] * 2
+    return [_impl_line(case, o) for o in _runs(case, obs)]
+
+
+def _model_line(case, obs):
     if 'pool' not in obs:
-        return ['listen bad-observation']
+        return 'listen bad-observation'
     pmap = obs['pmap']
     num = lambda tok: 0 if tok == 0 else pmap[tok]
     # environment: iteration order of the address set and what the kernel assigned, as observed
@@ -542,10 +691,23 @@ def model_lines(case):
         if h not in hs:
             hs.append(h)
     assign = [(l[2] if (l != ['u'] and l[1] == 0) else 0) for l in obs['pool']]
-    return ['listen %d %d %s %d %s %d %d %s %s %d' % (
+    return 'listen %d %d %s %d %s %d %d %s %s %d' % (
         case['unix'], HOST_ID[case['hostname']], _csv(HOST_ID[h] for h in case['hostnames']),
         num(_port_tok(case)), _csv(num(t) for t in case['ports']), case['pf'], case['pidf'],
-        _csv(HOST_ID[h] for h in hs), _csv(assign), obs['mypid'])]
+        _csv(HOST_ID[h] for h in hs), _csv(assign), obs['mypid'])
+
+
+def model_lines(case):
+    obs = observe(case)
+    if _is_ops(case):
+        fam = 'unix' if case['unix'] else ('tcp6' if ':' in case['host'] else 'tcp4')
+        return ['listen ops %s %d %d' % (fam, obs.get('port', 0), case['backlog'])]
+    if case.get('restart') and 'first' not in obs:
+        return ['listen bad-observation'] * 2
+    # a restart is, for the model, the same `setup` again after `shutdown`: nothing of the first
+    # instance is left (C19_files_gone) and a lingering connection does not block the bind
+    # (C19_restart_binds), so each start is modelled on its own observed environment
+    return [_model_line(case, o) for o in _runs(case, obs)]
 
 
 # ------------------------------------------------------------------ the property on the implementation
@@ -554,6 +716,32 @@ def oracle(case):
     if not nontrivial(case):
         return None
     obs = observe(case)
+    if _is_ops(case):
+        ops = obs.get('ops')
+        if ops is None or obs['status'] != 'ok':
+            return 'listener-setup-failed:' + obs.get('status', '?').replace(' ', '-')
+        binds = [i for i, o in enumerate(ops) if o.startswith('bind:')]
+        reuse = [i for i, o in enumerate(ops) if o == 'reuseaddr=1']
+        if len(binds) != 1:
+            return 'listener-does-not-bind-once'
+        if not reuse or reuse[0] > binds[0]:
+            return 'reuseaddr-not-set-before-bind'
+        lis = [i for i, o in enumerate(ops) if o.startswith('listen:')]
+        if len(lis) != 1 or lis[0] < binds[0]:
+            return 'listen-not-after-bind'
+        return None
+    if case.get('restart'):
+        if 'first' not in obs:
+            return 'startup-failed:' + obs.get('status', '?').replace(' ', '-')
+        r = _judge(case, obs['first'])
+        if r:
+            return r
+        r = _judge(case, obs)
+        return ('restart:' + r) if r else None
+    return _judge(case, obs)
+
+
+def _judge(case, obs):
     if obs['status'] != 'ok':
         return 'startup-failed:' + obs['status'].replace(' ', '-')
     pmap = obs['pmap']
@@ -626,9 +814,17 @@ def oracle(case):
 
 # ------------------------------------------------------------------ cases
 
-def _case(mode='local', nw=1, unix=0, hostname='127.0.0.1', hostnames=(), port=0, ports=(), pf=1, pidf=1):
-    return {'mode': mode, 'nw': nw, 'unix': unix, 'hostname': hostname, 'hostnames': list(hostnames),
-            'port': port, 'ports': list(ports), 'pf': pf, 'pidf': pidf}
+def _case(mode='local', nw=1, unix=0, hostname='127.0.0.1', hostnames=(), port=0, ports=(), pf=1, pidf=1,
+          restart=0):
+    c = {'mode': mode, 'nw': nw, 'unix': unix, 'hostname': hostname, 'hostnames': list(hostnames),
+         'port': port, 'ports': list(ports), 'pf': pf, 'pidf': pidf}
+    if restart:
+        c['restart'] = 1
+    return c
+
+
+def _ops_case(host='127.0.0.1', port=0, backlog=100, unix=0):
+    return {'kind': 'sockops', 'host': host, 'port': port, 'backlog': backlog, 'unix': unix}
 
 
 def corpus():
@@ -655,6 +851,15 @@ def corpus():
         _case(port=0, ports=['b', 0, 'b']),
         _case(unix=1, port='a', ports=['b', 'b']),
         _case(port=0, ports=[0], hostnames=['127.0.0.2']),
+        # start -> serve -> stop -> start again on the same fixed ports / unix path / files, each mode
+        # (a listener that sets SO_REUSEADDR only after bind() cannot come up the second time)
+        _case(port='a', ports=['b'], restart=1, mode='threaded'),
+        _case(port='a', ports=['b', 0], restart=1, mode='local', hostname='::1'),
+        _case(port='a', ports=['b'], restart=1, mode='remote', hostnames=['127.0.0.2']),
+        _case(unix=1, port=None, ports=['a'], restart=1, mode='local'),
+        _case(unix=1, port=None, ports=[], restart=1, mode='threaded'),
+        # order of the socket calls of one listener
+        _ops_case('127.0.0.1', 0, 100), _ops_case('::1', 'a', 7), _ops_case('127.0.0.1', 'a', 100, unix=1),
     ]
     _PENDING.extend(cs)
     return cs
@@ -689,6 +894,26 @@ def _grid():
                             raise AssertionError
 
 
+def _restarts(rng, n):
+    """restart sequences: at least one fixed TCP port or a unix socket path is used twice"""
+    out = []
+    for i in range(n):
+        hostname, hostnames = rng.choice(ADDRESS_SETS)
+        unix = rng.choice([0, 0, 1])
+        single = len(set([hostname] + hostnames)) == 1
+        k = rng.choice([0, 1, 2, 3])
+        ports = ['bcd'[j] if (not single or rng.random() < 0.7) else 0 for j in range(k)]
+        port = (rng.choice([None, 'a', 0]) if unix else ('a' if (not single or rng.random() < 0.8) else 0))
+        out.append(_case(mode=list(MODES)[i % 3], unix=unix, hostname=hostname, hostnames=hostnames, port=port,
+                         ports=ports, restart=1, nw=2 if rng.random() < 0.15 else 1))
+    return out
+
+
+def _ops_cases(rng, n):
+    return [_ops_case(rng.choice(['127.0.0.1', '127.0.0.2', '::1']), rng.choice([0, 'a']),
+                      rng.choice([1, 5, 100, 128, 1024]), unix=rng.choice([0, 0, 1])) for _ in range(n)]
+
+
 def _outside(rng):
     """duplicates among the fixed ports and OS-assigned ports on several addresses"""
     hostname, hostnames = rng.choice(ADDRESS_SETS)
@@ -712,6 +937,7 @@ def generate(rng, tier):
                 c['pidf'] = rng.choice([0, 1])
             out.append(c)
         out += [_outside(rng) for _ in range(120)]
+        out += _restarts(rng, 150) + _ops_cases(rng, 40)
     else:
         for c in rng.sample(grid, 48):
             c = dict(c)
@@ -722,12 +948,19 @@ def generate(rng, tier):
                 c['pidf'] = rng.choice([0, 1])
             out.append(c)
         out += [_outside(rng) for _ in range(10)]
+        out += _restarts(rng, 9) + _ops_cases(rng, 6)
     _prefetch(_PENDING + out)
     del _PENDING[:]
     return out
 
 
 def neighbours(case):
+    if _is_ops(case):
+        yield dict(case, port=0)
+        yield dict(case, unix=1 - case['unix'])
+        return
+    if not case.get('restart'):
+        yield dict(case, restart=1)
     for mode in MODES:
         if mode != case['mode']:
             yield dict(case, mode=mode)
@@ -741,8 +974,10 @@ def search(rng):
 
 
 def describe(case):
+    if _is_ops(case):
+        return ['kind=sockops', 'sockops unix=%d' % case['unix']]
     req = _tcp_req(case)
-    return ['mode=' + case['mode'], 'unix=%d' % case['unix'], 'addresses=%d' % len(_hosts(case)),
+    return ['restart=%d' % (1 if case.get('restart') else 0), 'mode=' + case['mode'], 'unix=%d' % case['unix'], 'addresses=%d' % len(_hosts(case)),
             'tcp-ports=%d' % len(req), 'os-assigned=%d' % sum(1 for p in req if p == 0),
             'in-quantifier=%d' % in_quantifier(case), 'fixed-distinct=%d' % _fixed_distinct(case),
             'files=%d%d' % (case['pf'], case['pidf']), 'workers=%d' % case['nw']]
